@@ -686,7 +686,7 @@ structure Ready (file : List UInt8) (l : Lexer) : Prop where
   fault : l.fault = .none
   file : l.file = file
 
-theorem Frame.ready {file : List UInt8} {l l' : Lexer} (h : Frame l l') (hr : Ready file l) : Ready file l' :=
+theorem _root_.Goyang.Lemmas.Lex.Frame.ready {file : List UInt8} {l l' : Lexer} (h : Frame l l') (hr : Ready file l) : Ready file l' :=
   ⟨h.items.trans hr.items, h.errout.trans hr.errout, h.errcnt.trans hr.errcnt, h.fault.trans hr.fault,
    h.file.trans hr.file⟩
 
@@ -1375,7 +1375,7 @@ structure FrameG (l l' : Lexer) : Prop where
   state : l'.state = l.state
   fault : l'.fault = l.fault
 
-theorem Frame.frameG {l l' : Lexer} (h : Frame l l') : FrameG l l' :=
+theorem _root_.Goyang.Lemmas.Lex.Frame.frameG {l l' : Lexer} (h : Frame l l') : FrameG l l' :=
   ⟨h.errout, h.errcnt, h.file, h.inPattern, h.items, h.state, h.fault⟩
 
 theorem FrameG.trans {a b c : Lexer} (h1 : FrameG a b) (h2 : FrameG b c) : FrameG a c :=
